@@ -196,6 +196,47 @@ h!(q_zst_header_once, {
     assert!(n_live() == 0);
 });
 
+// zero-sized elements WITH a destructor through every assume_init path: the initialised handle keeps the
+// length (there are no bytes to measure it by) and every written element is destroyed exactly once
+static mut ZE_DROPS: usize = 0;
+struct ZElem;
+impl Drop for ZElem {
+    fn drop(&mut self) {
+        unsafe { ZE_DROPS += 1 };
+    }
+}
+h!(q_zst_elements_assume_init_with_header, {
+    let mut u = UniqueArc::<HeaderSlice<Dt, [MaybeUninit<ZElem>]>>::from_header_and_uninit_slice(Dt::new(0, 7), 3);
+    let blk = block_nr(0).addr;
+    for i in 0..3 {
+        u.slice[i].write(ZElem);
+    }
+    let a = unsafe { u.assume_init_slice_with_header() };
+    assert!(a.slice.len() == 3, "assume_init_slice_with_header changed the length of a zero-sized-element slice");
+    assert!(a.header.id == 0 && a.header.v == 7 && unsafe { ZE_DROPS } == 0 && ledger_zero());
+    let a = a.shareable();
+    assert!(a.heap_ptr() as usize == blk && Arc::count(&a) == 1 && nalloc() == 1);
+    drop(a);
+    assert!(unsafe { ZE_DROPS } == 3, "each written zero-sized element must be destroyed exactly once");
+    assert!(ledger_is(0, 1) && n_live() == 0);
+});
+h!(q_zst_elements_assume_init_slice, {
+    let via_arc: bool = kani::any();
+    if via_arc {
+        let a = Arc::<[MaybeUninit<ZElem>]>::new_uninit_slice(2);
+        let a = unsafe { a.assume_init() };
+        assert!(a.len() == 2 && unsafe { ZE_DROPS } == 0);
+        drop(a);
+    } else {
+        let u = UniqueArc::<[MaybeUninit<ZElem>]>::new_uninit_slice(2);
+        let u = unsafe { UniqueArc::assume_init_slice(u) };
+        assert!(u.len() == 2 && unsafe { ZE_DROPS } == 0);
+        drop(u);
+    }
+    assert!(unsafe { ZE_DROPS } == 2, "each zero-sized element must be destroyed exactly once");
+    assert!(n_live() == 0);
+});
+
 // ---- deprecated writers under a symbolic count
 #[kani::proof]
 #[kani::unwind(6)]
